@@ -390,12 +390,19 @@ def harness(name: str):
     return deco
 
 
+CURRENT: Chooser | None = None  # the chooser of the execution in progress (used by vmc.setorder)
+
+
 def run_harness(name: str, params: dict, ch: Chooser):
+    global CURRENT
     fn = HARNESSES[name]
+    CURRENT = ch
     try:
         return fn(ch, **params)
     except Prune as e:
         return {"skip": True, "reason": str(e) or "pruned"}
+    finally:
+        CURRENT = None
 
 
 def explore_task(task) -> Stats:
